@@ -33,6 +33,30 @@ Fixpoint boxdist2_l (l h : list ext) (q : list Z) : ext :=
   end.
 Definition boxdist2 (b : box) (q : list Z) : ext := boxdist2_l (lo b) (hi b) q.
 
+(* ------------------------------------------------------------------ _find_pivot: which pivots a strategy can return *)
+Fixpoint zins (x : Z) (l : list Z) : list Z :=
+  match l with [] => [x] | y :: t => if Z.leb x y then x :: y :: t else y :: zins x t end.
+Definition zsort (l : list Z) : list Z := fold_right zins [] l.
+
+(* np.median of a non-empty list: the middle element, or the mean of the two middle ones (coordinates are doubled
+   integers in the correspondence, so the mean is integral there) *)
+Definition median (l : list Z) : Z :=
+  let s := zsort l in
+  let n := length s in
+  if Nat.even n then (nth (n / 2 - 1) s 0 + nth (n / 2) s 0) / 2 else nth (n / 2) s 0.
+
+Definition zmin (l : list Z) : Z := fold_right Z.min (hd 0 l) l.
+Definition zmax (l : list Z) : Z := fold_right Z.max (hd 0 l) l.
+
+Definition pivot_ok (r : prule) (coords : list Z) (pivot : Z) : bool :=
+  match r with
+  | PMedian => Z.eqb pivot (median coords)
+  | PElement => existsb (Z.eqb pivot) coords
+  | PMedianOfSample cap =>
+    if Nat.leb (length coords) cap then Z.eqb pivot (median coords)      (* the sample is a permutation of everything *)
+    else Z.leb (zmin coords) pivot && Z.leb pivot (zmax coords)          (* a median of some of the values *)
+  end.
+
 (* self.points while a query runs.  The constructor stores `np.array(points)` (a private copy) or, if it did not copy,
    the caller's own array: then the queries would read whatever the caller has written into it since.
    `at_build` = the points the tree was built from, `now` = what the caller's array holds at query time. *)
